@@ -520,9 +520,9 @@ Qed.
 
 (** ** the three repaired defects, kept as witnesses: with one flag of the pinned tree switched
     back on, the faithful model violates the property *)
-Definition flags_drop_err : flags := {| fwd_err := false; after_ptr := true; nn_fwd := true; prefill := fun _ => false |}.
-Definition flags_after_by_value : flags := {| fwd_err := true; after_ptr := false; nn_fwd := true; prefill := fun _ => false |}.
-Definition flags_nn_swallows : flags := {| fwd_err := true; after_ptr := true; nn_fwd := false; prefill := fun _ => false |}.
+Definition flags_drop_err : flags := {| fwd_err := false; after_ptr := true; nn_fwd := true |}.
+Definition flags_after_by_value : flags := {| fwd_err := true; after_ptr := false; nn_fwd := true |}.
+Definition flags_nn_swallows : flags := {| fwd_err := true; after_ptr := true; nn_fwd := false |}.
 
 Definition key_a : bytes := [97%N].
 Definition key_b : bytes := [98%N].
